@@ -17,7 +17,7 @@ LEVEL = 'exploration'
 RULE = ('designs of 1-3 library cells (3 libraries, with flip-flop, fan-out, escaped instance names) x branchforks x SDF ASTs: all subsets of IOPATH entries in file order, all permutations of the '
         'full set, duplicates; per entry edge qualifier {none,posedge,negedge} x value form {(r)(f), (r), ()(f), (r)()} by single deviation (pairs in thorough); CELL grouping {one block per '
         'instance, instance split over two blocks, interleaved blocks}; INTERCONNECT entries port-to-pin / pin-to-pin with and without fan-out / zero-valued, in one or two top-level blocks; '
-        'every entry carries distinct min:typ:max numbers; distinct_nontrivial = distinct (design, SDF text) pairs with a non-zero expected array')
+        'every entry carries distinct min:typ:max numbers, also written as integers, negative numbers and with empty fields; distinct_nontrivial = distinct (design, SDF text) pairs with a non-zero expected array')
 ASSUMPTIONS = ['entries are applied in file order (a later entry for the same line/polarity overwrites an earlier one); the output pin of an IOPATH does not select a different line',
                'without branch forks a single-reader interconnect may be annotated on either of the two lines between the pins (both readings of "sole line" accepted)',
                'library pin tables trusted (C19); two delay values per list at most (documented limit)']
@@ -37,19 +37,28 @@ def designs():
 FORMS = ['rf', 'r', 'ef', 're']
 
 
-def vals(idx):
+def vals(idx, vfmt='float'):
     a = 1 + 2 * idx
-    return [a, a + .25, a + .5], [a + 1, a + 1.25, a + 1.5]
+    r, f = [a, a + .25, a + .5], [a + 1, a + 1.25, a + 1.5]
+    if vfmt == 'int': r, f = [a, a + 1, a + 2], [a + 3, a + 4, a + 5]
+    elif vfmt == 'neg': r, f = [-a, -a + .25, a + .5], [a + 1, -(a + 1.25), -0.5]
+    elif vfmt == 'empty_fields': r, f = [0, 0, a + .5], [a + 1, 0, a + 1.5]       # written as (::x) and (x::y)
+    return r, f
 
 
-def trip(v): return '(' + ':'.join(f'{x:.3f}' for x in v) + ')'
+def trip(v, vfmt='float'):
+    if vfmt == 'int': return '(' + ':'.join(str(int(x)) for x in v) + ')'
+    if vfmt == 'empty_fields': return '(' + ':'.join('' if x == 0 else f'{x:.3f}' for x in v) + ')'
+    return '(' + ':'.join(f'{x:.3f}' for x in v) + ')'
 
 
 def entry_text(e, escname):
-    r, f = vals(e['idx'])
+    vf = e.get('vfmt', 'float')
+    r, f = vals(e['idx'], vf)
     if e.get('zero'): r, f = [0, 0, 0], [0, 0, 0]
     form = e['form']
-    body = {'rf': f'{trip(r)} {trip(f)}', 'r': trip(r), 'ef': f'() {trip(f)}', 're': f'{trip(r)} ()'}[form]
+    t = lambda v: trip(v, vf if not e.get('zero') else 'float')
+    body = {'rf': f'{t(r)} {t(f)}', 'r': t(r), 'ef': f'() {t(f)}', 're': f'{t(r)} ()'}[form]
     if e['kind'] == 'io':
         pin = e['pin'] if not e['edge'] else f'({e["edge"]} {e["pin"]})'
         return f'(IOPATH {pin} {e["opin"]} {body})'
@@ -146,7 +155,7 @@ def expected_iopaths(lib, c, blocks):
             idx = lib.pin_index(n.kind, e['pin'])
             line = n.ins[idx] if idx < len(n.ins) else None
             if line is None: continue
-            r, f = vals(e['idx'])
+            r, f = vals(e['idx'], e.get('vfmt', 'float'))
             if e['form'] == 'r': f = r
             elif e['form'] == 'ef': r = [0, 0, 0]
             elif e['form'] == 're': f = [0, 0, 0]
@@ -164,7 +173,7 @@ def expected_interconnects(lib, c, blocks, bf):
         if inst is not None: continue
         for e in entries:
             if e['kind'] != 'ic' or e.get('zero'): continue
-            r, f = vals(e['idx'])
+            r, f = vals(e['idx'], e.get('vfmt', 'float'))
             if e['form'] == 'r': f = r
             elif e['form'] == 'ef': r = [0, 0, 0]
             elif e['form'] == 're': f = [0, 0, 0]
@@ -294,6 +303,8 @@ def run_design(res, libname, dname, bf, tier, seed):
                 for edge in ('posedge', 'negedge') if tier == 'thorough' or k == seed % n else ():
                     run(full[:k] + [io(k, k, form=form, edge=edge)] + full[k + 1:], 'split')
             run(full + [io(k, n + 3)], 'per_inst')
+            for vf in ('int', 'neg', 'empty_fields'):
+                run(full[:k] + [io(k, k, vfmt=vf)] + full[k + 1:], 'split' if k % 2 else 'per_inst')
             run(full + [io(k, n + 3)], 'split')
         # interconnects: one and two top-level blocks, mixed with iopaths, zero-valued entries
         m = len(ics)
@@ -305,6 +316,8 @@ def run_design(res, libname, dname, bf, tier, seed):
         for k in range(m):
             run([ic(k, 30 + k)])
             run(allic[:k] + [ic(k, 40, zero=True)] + allic[k + 1:], 'split')
+            run(allic[:k] + [ic(k, 45 + k, vfmt='int')] + allic[k + 1:])
+            run(allic[:k] + [ic(k, 46 + k, vfmt='empty_fields')] + allic[k + 1:], 'split')
             for form in FORMS[1:]:
                 run(allic[:k] + [ic(k, 50 + k, form=form)] + allic[k + 1:], 'split' if k % 2 else 'per_inst')
         if len(res.samples) < 1:
